@@ -240,3 +240,64 @@ Proof.
       rewrite partial_S, R in Hq. unfold ev2 in Hq. exists (EReloadRet j :: q).
       rewrite Hq, <- !app_assoc. reflexivity.
 Qed.
+
+(* C05 (no loss): a quiescent state in which the reload manager is idle has no pending reload
+   request - every ReloadAll() caller, every consumed SIGHUP and every received trigger has been
+   served.  (Directly from the definition of quiescence: an accepting rendezvous would be enabled.) *)
+Lemma quiescent_taus c s l :
+  quiescent c s = true -> In l (taus_nt c s) -> step0 c s l = None.
+Proof.
+  unfold quiescent. intros H Hin. rewrite forallb_forall in H.
+  specialize (H l (in_or_app _ _ _ (or_introl Hin))). destruct (step0 c s l); [discriminate|reflexivity].
+Qed.
+
+Ltac in_chain tac :=
+  unfold taus_nt; rewrite !in_app_iff;
+  first [ solve [tac]
+        | solve [left; tac]
+        | solve [right; left; tac]
+        | solve [do 2 right; left; tac] | solve [do 3 right; left; tac] | solve [do 4 right; left; tac]
+        | solve [do 5 right; left; tac] | solve [do 6 right; left; tac] | solve [do 7 right; left; tac]
+        | solve [do 8 right; left; tac] | solve [do 9 right; left; tac] | solve [do 10 right; left; tac]
+        | solve [do 11 right; left; tac] | solve [do 12 right; left; tac] | solve [do 13 right; left; tac]
+        | solve [do 14 right; left; tac] | solve [do 15 right; left; tac] | solve [do 16 right; left; tac]
+        | solve [do 17 right; left; tac] | solve [do 18 right; left; tac] | solve [do 19 right; left; tac]
+        | solve [do 20 right; left; tac] | solve [do 21 right; left; tac] | solve [do 22 right; left; tac]
+        | solve [do 23 right; left; tac] | solve [do 24 right; left; tac] | solve [do 25 right; left; tac]
+        | solve [do 20 right; tac] | solve [do 21 right; tac] | solve [do 22 right; tac]
+        | solve [do 23 right; tac] | solve [do 24 right; tac] | solve [do 25 right; tac] | solve [do 26 right; tac] ].
+
+Theorem sup_c05_no_loss c s :
+  quiescent c s = true -> rm s = RmIdle ->
+  hup s = 0 /\
+  (forall i, i < nrun c -> get LsAbsent (rls s) i <> LsFwd) /\
+  (forall k cs, In (k, OpReloadAll, cs) (callers s) -> find_caller k (callers s) <> Some (OpReloadAll, CPending)).
+Proof.
+  intros Q Er. repeat split.
+  - assert (Hin : In (LRmAccept SndHup) (taus_nt c s)) by (in_chain ltac:(cbn; auto)).
+    pose proof (quiescent_taus _ _ _ Q Hin) as H. cbn [step0] in H. rewrite Er in H.
+    destruct (hup s); [reflexivity|discriminate H].
+  - intros i Li Hf.
+    assert (Hin : In (LRmAccept (SndListener i)) (taus_nt c s))
+      by (in_chain ltac:(apply in_map_iff; exists i; split; [reflexivity|apply in_seq; cbn; lia])).
+    pose proof (quiescent_taus _ _ _ Q Hin) as H. cbn [step0] in H. rewrite Er, Hf in H. discriminate H.
+  - intros k cs Hin Hf.
+    assert (Hin' : In (LRmAccept (SndCaller k)) (taus_nt c s))
+      by (in_chain ltac:(apply in_map_iff; eexists; split; [|exact Hin]; reflexivity)).
+    pose proof (quiescent_taus _ _ _ Q Hin') as H. cbn [step0] in H. rewrite Er, Hf in H. discriminate H.
+Qed.
+
+(* C05 (frame): the steps of a reload pass touch neither the shutdown body nor Run()'s control
+   state: a reload never stops a runnable and never makes Run() return *)
+Definition is_reload_label (l : label) : bool :=
+  match l with LRmAccept _ | LReloadCall _ | LReloadRet _ | LTrigRecvR _ | LTrigR _ => true | _ => false end.
+
+Theorem sup_c05_frame c s l s' :
+  is_reload_label l = true -> step c s l = Some s' ->
+  sd s' = sd s /\ main s' = main s /\ rn s' = rn s /\ stop_called s' = stop_called s /\
+  own_cancel s' = own_cancel s.
+Proof.
+  intros Hl H. unfold step in H.
+  destruct l; try discriminate Hl; cbn [step0] in H; unfold store_state in H;
+    step_cases H; inversion H; subst; clear H; cbn; auto.
+Qed.
